@@ -40,14 +40,22 @@ static int OBS_GAIN_EXACT=0;
 typedef struct { const unsigned char *d; int len; int plc; int fec; int reset; } op_t;   /* reset: OPUS_RESET_STATE instead of a decode call (the gain is a setting and stays) */
 #define MAXOP 40
 typedef struct { op_t op[MAXOP]; int n; int stream; } seq_t;
+static int SPL[2]={-1,-1};   /* corpus indices of a mid-stream CELT-only and SILK-only 20 ms packet (splice material) */
+static void find_splices(void){ int s2; for(s2=0;s2<CO.ns;s2++){ cstream *t=&CO.s[s2]; if(t->n<3||t->dur_x10!=200||t->fec||t->dtx) continue; if(SPL[0]<0&&t->mode==REF_MODE_CELT_ONLY&&(CO.p[t->first+1].data[0]&0x80)) SPL[0]=t->first+1; if(SPL[1]<0&&t->mode==REF_MODE_SILK_ONLY&&!(CO.p[t->first+1].data[0]&0x80)&&(CO.p[t->first+1].data[0]&0x60)!=0x60) SPL[1]=t->first+1; } }
 static void mk_seq(seq_t *q,int s,int with_derived){
    int i; cstream *st=&CO.s[s]; q->n=0; q->stream=s;
-   for(i=0;i<st->n&&q->n<MAXOP-8;i++){ cpkt *p=&CO.p[st->first+i]; q->op[q->n].d=p->data; q->op[q->n].len=p->len; q->op[q->n].plc=0; q->op[q->n].fec=0; q->op[q->n].reset=0; q->n++; }
+   for(i=0;i<st->n&&q->n<MAXOP-12;i++){ cpkt *p=&CO.p[st->first+i]; q->op[q->n].d=p->data; q->op[q->n].len=p->len; q->op[q->n].plc=0; q->op[q->n].fec=0; q->op[q->n].reset=0; q->n++; }
    q->op[q->n].d=NULL; q->op[q->n].len=0; q->op[q->n].plc=1; q->op[q->n].fec=0; q->op[q->n].reset=0; q->n++;      /* one concealed frame */
    if(st->fec && st->n>=2){ cpkt *p=&CO.p[st->first+st->n-1]; q->op[q->n].d=p->data; q->op[q->n].len=p->len; q->op[q->n].plc=0; q->op[q->n].fec=1; q->op[q->n].reset=0; q->n++; }  /* LBRR decode of the last packet */
    /* OPUS_RESET_STATE in mid-stream (twin and gained decoders alike), then the first packets again: the gain must still be applied */
    memset(&q->op[q->n],0,sizeof(op_t)); q->op[q->n].reset=1; q->n++;
    for(i=0;i<st->n&&i<2&&q->n<MAXOP-4;i++){ cpkt *p=&CO.p[st->first+i]; memset(&q->op[q->n],0,sizeof(op_t)); q->op[q->n].d=p->data; q->op[q->n].len=p->len; q->n++; }
+   /* splices without a redundancy frame, both directions across the CELT-only boundary: a mid-stream CELT-only packet of another stream,
+      this stream's first packet, a mid-stream SILK-only packet of another stream, this stream's first packet (the transition cross-fade
+      of opus_decode_frame conceals with the OLD mode first: the gain must not be applied to that audio twice) */
+   if(SPL[0]>=0&&SPL[1]>=0&&st->n>0){ int k2; for(k2=0;k2<2;k2++){ cpkt *p=&CO.p[SPL[k2]], *p0=&CO.p[st->first];
+      memset(&q->op[q->n],0,sizeof(op_t)); q->op[q->n].d=p->data; q->op[q->n].len=p->len; q->n++;
+      memset(&q->op[q->n],0,sizeof(op_t)); q->op[q->n].d=p0->data; q->op[q->n].len=p0->len; q->n++; } }
    if(with_derived) for(i=0;i<CO.n&&q->n<MAXOP;i++) if(CO.p[i].stream==s&&CO.p[i].kind!=0){ q->op[q->n].d=CO.p[i].data; q->op[q->n].len=CO.p[i].len; q->op[q->n].plc=0; q->op[q->n].fec=0; q->op[q->n].reset=0; q->n++; }
 }
 /* one decoded sequence in one sample format */
@@ -213,14 +221,14 @@ int main(int argc,char **argv){
       { ccfg k={REF_MODE_CELT_ONLY,BWF,100,0,96000}; AG_S[0]=corpus_stream(&CO,"celt fb 10ms stereo full-scale square",48000,2,OPUS_APPLICATION_AUDIO,SIG_SQUARE,&k,5,NULL,0,0,0,0,2); }
       { ccfg k={REF_MODE_SILK_ONLY,BWW,200,0,24000};  AG_S[1]=corpus_stream(&CO,"silk wb 20ms mono speech",16000,1,OPUS_APPLICATION_VOIP,SIG_SPEECH,&k,5,NULL,0,0,0,0,2); }
       { ccfg k={REF_MODE_HYBRID,BWF,200,0,48000};     AG_S[2]=corpus_stream(&CO,"hybrid fb 20ms stereo speech",48000,2,OPUS_APPLICATION_VOIP,SIG_SPEECH,&k,5,NULL,0,0,0,0,2); }
-      OBS_GAIN_EXACT=1; nAG=nstreams>3?3:nstreams; AG_BLK=(int)mc_arg("--blk",32);
+      find_splices(); OBS_GAIN_EXACT=1; nAG=nstreams>3?3:nstreams; AG_BLK=(int)mc_arg("--blk",32);
       mc_info("allgains: every gain -32768..32767 x %d streams (3 coded packets + 1 concealed frame each) x {float,16-bit,24-bit} twin comparison; %d gains per item",nAG,AG_BLK);
       mc_par(65536/AG_BLK,item_allgains,NULL);
    } else {
       static const int A7[]={-32768,-3000,-1,1,256,3000,32767}, AX[]={-20000,-10000,-5120,-256,2,5120,10000,13256,13257,20000}; int n=0,j,lvl=(int)mc_arg("--level",MC.tier?1:0);
       nALPHA=0; for(i=0;i<7;i++) ALPHA[nALPHA++]=A7[i]; if(mc_arg("--wide",MC.tier?1:0)) for(i=0;i<10;i++) ALPHA[nALPHA++]=AX[i];
       nFSD=(int)mc_arg("--nfs",5); CHD=(int)mc_arg("--chd",2);
-      corpus_build(&CO,lvl); corpus_add_reframed(&CO);
+      corpus_build(&CO,lvl); corpus_add_reframed(&CO); find_splices();
       PLAN=malloc(sizeof(int[2])*(4*nALPHA+8));
       for(i=0;i<nALPHA;i++){ PLAN[n][0]=PLAN[n][1]=ALPHA[i]; n++; }
       PLAN[n][0]=PLAN[n][1]=0; n++;                                                   /* explicit OPUS_SET_GAIN(0) */
